@@ -48,6 +48,8 @@ def starts(rng, n, plain):
 
 def gen_cfg(rng, tier):
     mx = rng.below(4) if rng.chance(1, 8) else 1 + rng.below(3)
+    if rng.chance(1, 10):
+        mx = -1                      # setMaxThreadCount(negative) = no limit
     to = rng.pick([-1, 0, 3, 5, 5, 10, 10])
     over = (to if to >= 0 else 5) + 1 + rng.below(6)          # an advance that passes the timeout
     under = max(1, (to if to > 0 else 2) - 1 - rng.below(2))  # … and one that (alone) does not
@@ -345,7 +347,7 @@ def monitor(prop, cfg, run):
         for i, t in enumerate(ev):
             if t[0] == "spawn":
                 live.add(t[2])
-                if len(live) > mx:
+                if 0 <= mx < len(live):
                     msgs.append("%d worker threads alive (%s) with setMaxThreadCount(%d)" % (len(live), sorted(live), mx))
             elif t[0] == "exit":
                 live.discard(t[1])
@@ -355,12 +357,12 @@ def monitor(prop, cfg, run):
                 running_now.pop(t[1], None)
             elif t[0] == "threadCount":
                 n = int(t[1])
-                if n > mx:
+                if 0 <= mx < n:
                     msgs.append("getThreadCount() = %d with setMaxThreadCount(%d)" % (n, mx))
                 if i >= 2 and ev[i - 2][0] == "stopReturned" and n != 0:
                     msgs.append("getThreadCount() = %d after stop() returned" % n)
                 if in_restart:
-                    if n < 1 and mx >= 1:
+                    if n < 1 and (mx >= 1 or mx < 0):
                         msgs.append("start() after stop() did not spawn a worker (getThreadCount() = %d)" % n)
                     in_restart = restart_pending = False
             elif t[0] == "activeCount":
@@ -404,7 +406,8 @@ def model_check(runs):
         steps = canonical_steps(ev)
         mx, to, prog = model_prog(cfg_of(r))
         start = len(lines)
-        lines.append("pool x init %d %s %s" % (mx, to, prog))
+        # a negative maximum means "no limit": the model (max : Nat) runs with a bound no execution reaches
+        lines.append("pool x init %d %s %s" % (mx if mx >= 0 else 1000000, to, prog))
         lines.extend(steps)
         if r.status == "ok":
             lines.append("pool x end")
